@@ -2,7 +2,7 @@
    (Model/Proto2Queue.v over Model/P2Inst.v) that are NOT fixed points (some reconcile still has effects).
    Random delivery orders and small-scope exhaustive delivery orders over scripted scenarios.
 
-   usage: c09_search MODE SEED N [verbose]
+   usage: c09_search MODE SEED N [MAXSTATES]   (C09_NOSER=1: no SERIALIZABLE transactions; C09_SCOPE=i: one small scope)
      MODE = random | exhaustive | both
    output (stdout):
      SHAPE \t count \t stranded \t shape key
@@ -254,9 +254,8 @@ let check_cycle (sc : scen) (s : (cmap, cmap, req, dstate) qworld) (tr : cmap ql
         (match p2_reconcile (oracle_for sc c false) s.qw c with
          | ([], RRequeueProp k2) ->
            (match p2_reconcile (oracle_for sc (CtlProp k2) false) s.qw (CtlProp k2) with
-            | ([], RRequeueProp k3) when k3 = k1
-                                         && List.exists (fun (t, i) -> match find_prop s.qw (t, i), find_tx s.qw i with
-                                             | Some p, Some tx -> p.p_apply = None && tx.t_apply = Some Failed | _ -> false) [ k1; k2 ] ->
+            | ([], RRequeueProp k3) when k3 = k1 && q_enabled o_quiet s.qw = [] && all_connected s.qw ->
+              (* permanent: no stored id has anything to do, every target is connected *)
               let key = "CYCLE " ^ describe s.qw c ^ " <-> " ^ describe s.qw (CtlProp k2) in
               let t = List.rev tr in
               (match Hashtbl.find_opt shapes key with
@@ -268,9 +267,9 @@ let check_cycle (sc : scen) (s : (cmap, cmap, req, dstate) qworld) (tr : cmap ql
          | _ -> false)
       | _ -> false) s.queue
 
+let record_final = ref false
 let max_steps = 3000
-let fx = ref no_fixes
-let q_step s l = q_step_fx !fx s l
+
 
 let run_random (rng : Random.State.t) (sc : scen) =
   let s = ref q_init and env = ref sc.items and trace = ref [] and steps = ref 0 and go = ref true in
@@ -281,7 +280,20 @@ let run_random (rng : Random.State.t) (sc : scen) =
       if qlen = 0 then check_idle !s !trace;
       let l = QEnv (label_of (List.hd !env)) in
       env := List.tl !env; s := q_step !s l; trace := l :: !trace
-    end else if qlen = 0 then begin check_idle !s !trace; go := false end
+    end else if qlen = 0 then begin
+      check_idle !s !trace;
+      if !record_final then begin
+        (* the end of a complete run: a regression example for the Coq side *)
+        let w = !s.qw in
+        let key = Printf.sprintf "FINAL %s %s" (if q_enabled o_quiet w = [] then "fixpoint" else "NOT-FIXPOINT")
+            (if List.for_all (fun (_, t) -> tx_final t) (w_txs w) then "all-final" else "some-not-final") in
+        let tr = List.rev !trace in
+        match Hashtbl.find_opt shapes key with
+        | Some h -> h.count <- h.count + 1;
+          if List.length tr < List.length h.best then begin h.best <- tr; h.state <- summary_string w end
+        | None -> Hashtbl.replace shapes key { count = 1; stranded = 0; best = tr; state = summary_string w; who = "" }
+      end;
+      go := false end
     else begin
       let n = Random.State.int rng qlen in
       let c = List.nth !s.queue n in
@@ -289,6 +301,24 @@ let run_random (rng : Random.State.t) (sc : scen) =
       let l = QDeliver (nat_of_int n, oracle_for sc c transient) in
       s := q_step !s l; trace := l :: !trace;
       if check_cycle sc !s !trace then begin stat "runs_cycle"; go := false end
+      else begin
+        (* livelock: the environment script is over and everything that is pending is a pair of proposals that do nothing
+           but re-queue each other: every delivery order from here on leaves the world unchanged and the queue non-empty *)
+        match List.sort_uniq compare !s.queue with
+        | [ CtlProp k1; CtlProp k2 ] when !env = [] ->
+          (match p2_reconcile (oracle_for sc (CtlProp k1) false) !s.qw (CtlProp k1), p2_reconcile (oracle_for sc (CtlProp k2) false) !s.qw (CtlProp k2) with
+           | ([], RRequeueProp a), ([], RRequeueProp b) when a = k2 && b = k1 ->
+             stat "runs_livelock";
+             let key = "LIVELOCK " ^ describe !s.qw (CtlProp k1) ^ " <-> " ^ describe !s.qw (CtlProp k2) ^ (if all_connected !s.qw then " connected" else " not-connected") in
+             let t = List.rev !trace in
+             (match Hashtbl.find_opt shapes key with
+              | Some h -> h.count <- h.count + 1;
+                if List.length t < List.length h.best then begin h.best <- t; h.state <- summary_string !s.qw; h.who <- sctrl (CtlProp k1) end
+              | None -> Hashtbl.replace shapes key { count = 1; stranded = 0; best = t; state = summary_string !s.qw; who = sctrl (CtlProp k1) });
+             go := false
+           | _ -> ())
+        | _ -> ()
+      end
     end
   done;
   if !steps >= max_steps then begin
@@ -394,6 +424,8 @@ let small_scopes : scen list =
                 fail = [ (1, 1) ] };
     (* a serializable change and a change committed while the device is away, then the device arrives *)
     { base with items = [ Target 1; Change ([ (1, 11) ], true); Change ([ (1, 21) ], false); ConnUp (11, 1) ] };
+    (* two changes committed while the device is away, then the device arrives *)
+    { base with items = [ Target 1; Change ([ (1, 11) ], false); Change ([ (1, 21) ], false); ConnUp (11, 1) ] };
     (* change, rollback of it, change *)
     { base with items = [ Target 1; ConnUp (11, 1); Change ([ (1, 11) ], false); Rollback 1; Change ([ (1, 31) ], false) ] };
   ]
@@ -403,9 +435,6 @@ let () =
   let seed = if Array.length Sys.argv > 2 then int_of_string Sys.argv.(2) else 1 in
   let n = if Array.length Sys.argv > 3 then int_of_string Sys.argv.(3) else 2000 in
   let maxst = if Array.length Sys.argv > 4 then int_of_string Sys.argv.(4) else 60000 in
-  (if Array.length Sys.argv > 5 then
-     let f = Sys.argv.(5) in
-     fx := { fx_next = f.[0] = '1'; fx_initfail = f.[1] = '1'; fx_proposed = f.[2] = '1' });
   let rng = Random.State.make [| seed |] in
   if mode = "random" || mode = "both" then
     for _ = 1 to n do
@@ -414,6 +443,7 @@ let () =
     done;
   if mode = "scoperandom" then begin
     let i = int_of_string (Sys.getenv "C09_SCOPE") in
+    record_final := true;
     for _ = 1 to n do run_random rng (List.nth small_scopes i) done
   end;
   if mode = "exhaustive" || mode = "both" then
